@@ -27,13 +27,18 @@ func C17(c *Ctx) int {
 	hs = append(hs, Harness{Name: "fe.TokenName3", Pkg: "internal/codegen", Func: "H_TokenName3", Reach: []string{"accepted", "rejected"}, Quiet: true,
 		Bounds: "a three-byte token name (each byte any letter, digit or underscore) in the default mode"})
 	for others := 0; others <= 2; others++ {
-		h := Harness{Name: fmt.Sprintf("fe.AliasAmbiguity[others=%d]", others), Pkg: "internal/codegen", Func: "H_AliasAmbiguity", Params: map[string]int{"others": others},
-			Reach: []string{"rejected"}, Quiet: true,
-			Bounds: fmt.Sprintf("a parser term refers to the literal 'x'; %d other tokens are spelled 'x'; the literal of one more token is any letter or digit", others)}
-		if others == 0 {
-			h.Reach = []string{"rejected", "accepted"}
+		for rep := 0; rep <= 2; rep++ {
+			if rep > 0 && others == 2 {
+				continue
+			}
+			h := Harness{Name: fmt.Sprintf("fe.AliasAmbiguity[others=%d,rep=%d]", others, rep), Pkg: "internal/codegen", Func: "H_AliasAmbiguity", Params: map[string]int{"others": others, "rep": rep},
+				Reach: []string{"rejected"}, Quiet: true,
+				Bounds: fmt.Sprintf("a parser term refers to the literal 'x'; %d other tokens are spelled 'x'; one more token is spelled by any letter or digit followed by a blank or any cardinality; rep=%d: a further token 'x'+ / 'x'* (never an alias)", others, rep)}
+			if others == 0 {
+				h.Reach = []string{"rejected", "accepted"}
+			}
+			hs = append(hs, h)
 		}
-		hs = append(hs, h)
 	}
 	for _, h := range hs {
 		if !onlyItem(h.Name) {
